@@ -1,5 +1,5 @@
 // Witness tests for the KNOWN FINDINGS (genuine defects recorded, not repaired).
-// Dropped as `crates/stark/src/tests/kf_witness.rs` into a SCRATCH copy of the workspace by vf/witness.py;
+// Dropped as `crates/stark/src/tests/kf_witness.rs` into a SCRATCH copy of the workspace by witness/run_kf.sh;
 // every test PASSES while the defect is present (it asserts the defective behaviour).
 use std::println;
 extern crate alloc;
@@ -10,10 +10,10 @@ use swiftness_air::{
     layout::{recursive::Layout, LayoutTrait},
 };
 
-/// KF C14 validate_public_input: builtin capacity computed with field_div: a trace shorter than the row ratio
-/// (log_n_steps = 5: trace 512 rows, pedersen needs 2048 rows per instance) accepts 1000 pedersen instances
+/// FIXED (d0bb0cf), kept as a regression witness: builtin capacity was computed with field_div: a trace shorter than the
+/// row ratio (log_n_steps = 5: trace 512 rows, pedersen needs 2048 rows per instance) accepted 1000 pedersen instances
 #[test]
-fn kf_c14_builtin_capacity_short_trace() {
+fn fixed_c14_builtin_capacity_short_trace() {
     let mut pi = public_input::get();
     pi.log_n_steps = Felt::from(5u64);
     pi.segments[3].stop_ptr = pi.segments[3].begin_addr + Felt::from(3000u64);
@@ -21,8 +21,8 @@ fn kf_c14_builtin_capacity_short_trace() {
     pi.segments[5].stop_ptr = pi.segments[5].begin_addr;
     let d = StarkDomains::new(Felt::from(9u64), Felt::from(2u64));
     let r = Layout::validate_public_input(&pi, &d);
-    println!("KF C14a: trace of 512 rows, 1000 pedersen instances declared (the trace holds none): validate ok = {:?}", r.is_ok());
-    assert!(r.is_ok());
+    println!("fixed C14a: trace of 512 rows, 1000 pedersen instances declared (the trace holds none): validate ok = {:?}", r.is_ok());
+    assert!(r.is_err());
 }
 
 /// KF C18 eval_composition_polynomial: assert!(n_pedersen_hash_copies < u128::MAX) reachable after validation (log_n_steps < 7)
@@ -100,9 +100,9 @@ fn kf_c18_output_len_overflow() {
     assert!(r.is_err());
 }
 
-/// KF C14 validate_public_input, range-check and bitwise builtins (row ratio 128): a trace of 64 rows accepts 1000 instances of each
+/// FIXED (d0bb0cf), regression witness: range-check and bitwise builtins (row ratio 128): a trace of 64 rows accepted 1000 instances of each
 #[test]
-fn kf_c14_builtin_capacity_short_trace_rc_bitwise() {
+fn fixed_c14_builtin_capacity_short_trace_rc_bitwise() {
     let mut pi = public_input::get();
     pi.log_n_steps = Felt::from(2u64);
     pi.segments[3].stop_ptr = pi.segments[3].begin_addr;
@@ -110,6 +110,6 @@ fn kf_c14_builtin_capacity_short_trace_rc_bitwise() {
     pi.segments[5].stop_ptr = pi.segments[5].begin_addr + Felt::from(5000u64);
     let d = StarkDomains::new(Felt::from(6u64), Felt::from(2u64));
     let r = Layout::validate_public_input(&pi, &d);
-    println!("KF C14c: trace of 64 rows, 1000 range-check and 1000 bitwise instances declared (the trace holds none): validate ok = {:?}", r.is_ok());
-    assert!(r.is_ok());
+    println!("fixed C14c: trace of 64 rows, 1000 range-check and 1000 bitwise instances declared (the trace holds none): validate ok = {:?}", r.is_ok());
+    assert!(r.is_err());
 }
